@@ -163,7 +163,26 @@ class Check:
                     best = ctx.case
                     improved = True
                     break
+        # second phase: simplify single operations (drop probes / fault plans / keyword arguments / tails)
+        improved = True
+        while improved and tries < budget:
+            improved = False
+            for cand in self.simplify_candidates(best):
+                if tries >= budget:
+                    break
+                tries += 1
+                try:
+                    ctx = self.run(seed=cand.get("seed"), case=cand, tier="quick")
+                except Exception:
+                    continue
+                if any(v.sig_key() == sig_key for v, _ in ctx.violations):
+                    best = ctx.case
+                    improved = True
+                    break
         return best, tries
+
+    def simplify_candidates(self, case):
+        return simplify_value_candidates(case)
 
 
 def ddmin_candidates(case):
@@ -194,7 +213,9 @@ def simplify_value_candidates(case):
     """Second-phase shrinking: drop keyword arguments / fault plans from single ops."""
     ops = case.get("ops", [])
     for idx, op in enumerate(ops):
-        for field in ("probe", "plan"):
+        if not isinstance(op, dict):
+            continue
+        for field in ("probe", "plan", "tails", "fault"):
             if op.get(field):
                 o2 = {k: v for k, v in op.items() if k != field}
                 c = dict(case)
